@@ -82,6 +82,9 @@ void h_c06_readers(void)
                 KV_ASSUME(nres >= 1);
         }
         nlines = 0;
+#ifdef KV_LEADBLANK
+        put_line("");                               /* C04 "blank lines": the file starts with an empty line */
+#endif
 #if KV_FMT == 1
         put_line("CLUSTAL W");
         put_line("");
